@@ -20,6 +20,7 @@ bool prop(Tape &t, Report &R) {
     if (s.nbMovable() == 0) return true;
     return judge(s, params, R, false);
   }
+  HistoryScope hist(t, R);
   GenOpts o;
   if (R.thorough()) o.maxCells = 60, o.maxLevels = 16;
   CircuitSpec s = genCircuit(t, o);
